@@ -147,6 +147,43 @@ def case_real(log, sector, mode, order=None, nf_fixed=None, nf_hi=6, n_real=None
     log.path_stats(pm)
     if "ok" not in seen:
         log.inconclusive.append("%s: no accepted path" % sector)
+    _encode(log, sector)
+    if mode == "a" and not (sector == "ome.sl" and (order or 3) >= 3):
+        _validate(log, sector, order, nf_fixed, variation)
+
+
+def _encode(log, sector):
+    name = {"sl.as4": SL, "sl.fhmruvv": SL, "qed.as4": SL, "qed.fhmruvv": SL, "tl": TL, "pol": POL, "ome.sl": OSL, "ome.pol": OPOL, "ome.tl": OTL}[sector]
+    m = E.mod(name)
+    fns = ["gamma_singlet_qed", "gamma_valence_qed", "gamma_ns_qed"] if sector.startswith("qed") else (["A_singlet", "A_non_singlet"] if sector.startswith("ome") else ["gamma_singlet", "gamma_ns"])
+    log.encode(*[getattr(m, f) for f in fns])
+
+
+def _validate(log, sector, order, nf_fixed, variation):
+    """translator validation: symbolic towers (psi atoms by mpmath) at points == the real float code"""
+    E.unpatch()
+    nfv = nf_fixed if nf_fixed is not None else 4
+    pts = [(rnd(log.rng, 2.2, 20), rnd(log.rng, -3, 3)) for _ in range(2)]
+    ref = [dict(_entries(targets(sector, complex(float(n)), nfv, float(l), order, variation))) for n, l in pts]
+
+    def run():
+        E.unpatch()
+        E.patch()
+        E.install_psi()
+        N, L = SR.var("N"), SR.var("L")
+        assume(N - 2, ">0")
+        sym = dict(_entries(targets(sector, N, nfv, L, order, variation)))
+        for (n, l), r in zip(pts, ref):
+            env = E.PsiNumEnv({"N": n, "L": l})
+            for lab, e in sym.items():
+                got = complex(env.value(e if isinstance(e, (SR, Cx)) else Cx.lift(complex(e))))
+                want = complex(r[lab])
+                if abs(got - want) > 1e-7 * max(1.0, abs(want)):
+                    log.inconclusive.append("translator validation failed: %s %s at N=%s L=%s nf=%s: %r vs %r" % (sector, lab, n, l, nfv, got, want))
+            log.validate()
+
+    explore(run)
+    E.unpatch()
 
 
 def _scale(x):
